@@ -353,9 +353,12 @@ def hostile_table_cases():
                          "dict_key": ["dict", spec, ["int"], "typing"]}[shape]
                     datum = {"bare": d, "list": [d], "dict_value": {"$": "d", "v": [["k", d]]},
                              "dict_key": {"$": "d", "v": [[d, 1]]}}[shape]
-                    for mode in range(6):
-                        yield {"t": t, "datum": datum, "ops": ["table"], "strict": bool(mode % 2), "debug": mode // 2,
-                               "provs": [], "layouts": {}}
+                    # date / datetime also under their non-default representations (timestamps, a format string)
+                    prov_sets = [[]] + ([["ts_datetime"], ["dt_format"]] if tag == "datetime" else [["ts_date"]] if tag == "date" else [])
+                    for provs in prov_sets:
+                        for mode in range(6):
+                            yield {"t": t, "datum": datum, "ops": ["table"], "strict": bool(mode % 2), "debug": mode // 2,
+                                   "provs": provs, "layouts": {}}
 
 
 def list_layout_table_cases():
